@@ -117,6 +117,19 @@ def r2(ctx):
             kname = d.split(':')[-1]
     if kname is None:
         raise AnalysisBroken('C15.R2: the lookup key variable of getAnswer was not recognised')
+    # locals derived from the key (a copy used for the lookups) are key variables as well
+    import re
+    knames = [kname]
+    grew = True
+    while grew:
+        grew = False
+        for nid, d, rhs, op, lhs in ga.assignments():
+            if d and rhs is not None and op in ('init', '=') and not d.startswith('this.'):
+                n2 = d.split(':')[-1]
+                if n2 not in knames and any(re.search(r'(?<![\w.])%s(?![\w(])' % re.escape(kn), ga.key(rhs)) for kn in knames) and \
+                        (ga.nodes.get(ga.strip(rhs), {}).get('t') or '').startswith(('uint64', 'unsigned long')):
+                    knames.append(n2)
+                    grew = True
     # (a) source wildcard: somewhere the lookup key is and-ed with a constant that clears exactly the source field
     masks = []
     for nid, v in sorted(ga.nodes.items()):
@@ -124,7 +137,7 @@ def r2(ctx):
             for side in ('lhs', 'rhs'):
                 m = ga.val(v[side])
                 other = v['rhs' if side == 'lhs' else 'lhs']
-                if m is not None and kname in ga.key(other) and bin(m & U64).count('0') <= 8 + 2 and \
+                if m is not None and any(kn in ga.key(other) for kn in knames) and bin(m & U64).count('0') <= 8 + 2 and \
                         ((m & U64) | src_mask) == U64 and (m & U64) != U64:
                     masks.append((nid, m & U64))
     if not masks:
@@ -134,7 +147,7 @@ def r2(ctx):
         ctx.ob('C15.R2', ga, nid, ok, 'source wildcard lookup mask',
                'mask %#x, expected ~(0x1f << %d) = %#x' % (m, lay['src'], ~src_mask & U64))
     # (b) the reduce step: key = (key & ~lenmask & ~(0xff << 8*(fold_init - len))) | (len << lenshift)
-    red = [(nid, rhs) for nid, d, rhs, op, lhs in ga.assignments() if d and d.endswith(':' + kname) and op == '=' and rhs is not None and
+    red = [(nid, rhs) for nid, d, rhs, op, lhs in ga.assignments() if d and d.split(':')[-1] in knames and op == '=' and rhs is not None and
            'createAnswerKey(' not in ga.key(rhs)]
     if not red:
         raise AnalysisBroken('C15.R2: key reduction assignment not found in getAnswer')
